@@ -760,7 +760,8 @@ impl Tree {
 pub fn gen_wide_tree(r: &mut Rng) -> Tree {
     let mut nodes: Vec<(u32, Kind)> = vec![];
     if r.chance(1, 2) {
-        let n = 110 + r.usize(80);
+        // sometimes more children than a byte can count
+        let n = if r.chance(1, 3) { 250 + r.usize(160) } else { 110 + r.usize(80) };
         let kids: Vec<u32> = (1..=n as u32).collect();
         let mut best = 0;
         let mut leaves = vec![];
